@@ -222,4 +222,13 @@ def main(argv):
 
 
 if __name__ == "__main__":
-    sys.exit(main(sys.argv[1:]))
+    try:
+        rc = main(sys.argv[1:])
+        sys.stdout.flush()
+    except BrokenPipeError:  # e.g. `./check ... | head -1`; the verdict is in the evidence file and the exit code
+        try:
+            sys.stdout = open(os.devnull, "w")
+        except Exception:
+            pass
+        rc = 1
+    sys.exit(rc)
